@@ -124,3 +124,14 @@ func (h *Hold) WaitSignals(n int, d time.Duration) bool {
 	}
 	return true
 }
+
+// BlockedConns returns the connections currently (or formerly) blocked by the hold.
+func (h *Hold) BlockedConns() []*fakeredis.Conn {
+	h.mu.Lock()
+	defer h.mu.Unlock()
+	var out []*fakeredis.Conn
+	for c := range h.blocked {
+		out = append(out, c)
+	}
+	return out
+}
